@@ -162,6 +162,8 @@ def main(argv=None):
             for (sub, hyps, goal) in lem.build():
                 o = Obligation('lemma/%s/%s' % (lem.name, sub), hyps, goal, None, (), 'check', 'lemma:' + lem.name)
                 lemma_obs.append(o)
+                # vacuity guard: the hypotheses of a lemma obligation must be satisfiable
+                lemma_obs.append(Obligation('lemma/%s/%s/cover/requires' % (lem.name, sub), hyps, z3.BoolVal(True), None, (), 'cover', 'lemma:' + lem.name))
         except Exception:
             traceback.print_exc()
             crashed.append(lem)
@@ -201,7 +203,7 @@ def main(argv=None):
             if name.endswith('cover/requires'):
                 if not all(v == 'covered' for v in vs):
                     if any(v == 'vacuous' for v in vs) and not any(v == 'covered' for v in vs):
-                        vacuity.append((name, 'preconditions are unsatisfiable'))
+                        vacuity.append((name, 'preconditions / hypotheses are unsatisfiable'))
             else:
                 if all(v == 'vacuous' for v in vs):
                     vacuity.append((name, 'no feasible normal exit'))
